@@ -623,6 +623,16 @@ func c06Gen(rng *rand.Rand) *metaCase {
 		}
 		feats["outer-definition-in-excluded-entry"] = true
 	}
+	// a nested include file whose suffix (or prefix) text equals another line of the including file's text: the suffix
+	// of the outer file, or one of its entries; lines that repeat are not merged into one
+	if core.Chance(rng, 1, 5) {
+		sfx := core.Pick(rng, "%s", "post", `\d`, "x+")
+		p.Files.Include["outersfx"] = core.Pick(rng, "##!$ "+sfx+"\nfoo\n##!> include innersfx\ndelta\n", sfx+"\nfoo\n##!> include innersfx\ndelta\n", "##!^ "+sfx+"\n##!> include innersfx\nfoo\n")
+		p.Files.Include["innersfx"] = "##!$ " + sfx + "\n" + core.Pick(rng, "ab\ncd\n", "ab|cd\n", "ab\ncd\nab\n")
+		p.Files.Exclude["outersfxx"] = core.Pick(rng, "notlisted\n", "foo\n", "delta\ncd\n")
+		main = append(main, "##!> include-except outersfx outersfxx")
+		feats["nested-file-repeats-a-line-of-the-outer-file"] = true
+	}
 	// an include file with its own prefix/suffix (so its text carries directive lines) and pairs whose keys end those lines
 	if core.Chance(rng, 1, 4) {
 		p.Files.Include["withaffix"] = "##!^ " + core.Pick(rng, `\b`, "pre") + "\n##!$ " + core.Pick(rng, `\b`, "post") + "\nalphax\nbetae\ngamma>\ndelta<\n"
